@@ -137,26 +137,45 @@ func dumpGoroutines() map[int64]ginfo {
 	return out
 }
 
-// whichOnce says which Once a goroutine blocked in sync.Once.Do waits for: "F" freezeOnce, "W" warmupOnce.
-func whichOnce(g ginfo) string {
-	if !strings.HasPrefix(g.state, "sync.Mutex.Lock") {
-		return ""
-	}
-	seen := false
-	for _, f := range g.funcs {
-		if strings.HasPrefix(f, "sync.(*Once).Do") {
-			seen = true
+// onceFrames lists the sync.Once.Do frames of a goroutine, innermost first: which Once ("F" freezeOnce,
+// "W" warmupOnce — read off the caller frame, Router.Freeze or Router.Warmup) and whether the goroutine
+// is waiting for that Once (blocked in its mutex) or is inside its body. Closure names differ between
+// build modes (inlining, -race), so only the sync and the two exported method frames are relied on.
+func onceFrames(g ginfo) (which []string, waiting []bool) {
+	locking := strings.HasPrefix(g.state, "sync.Mutex.Lock")
+	onlySyncSoFar := true // every frame inside the innermost Once.Do so far belongs to sync / internal/sync
+	for i, f := range g.funcs {
+		isSync := strings.HasPrefix(f, "sync.") || strings.HasPrefix(f, "internal/sync.")
+		if strings.HasPrefix(f, "sync.(*Once).Do(") {
+			w := ""
+			for _, c := range g.funcs[i+1:] {
+				if strings.HasPrefix(c, "sync.") || strings.HasPrefix(c, "internal/sync.") {
+					continue
+				}
+				if strings.HasPrefix(c, "rivaas.dev/router.(*Router).Freeze(") {
+					w = "F"
+				} else if strings.HasPrefix(c, "rivaas.dev/router.(*Router).Warmup(") {
+					w = "W"
+				}
+				break
+			}
+			which = append(which, w)
+			waiting = append(waiting, locking && onlySyncSoFar && len(which) == 1)
+			onlySyncSoFar = false
 			continue
 		}
-		if seen && !strings.HasPrefix(f, "sync.") {
-			if strings.HasPrefix(f, "rivaas.dev/router.(*Router).Freeze(") {
-				return "F"
-			}
-			if strings.HasPrefix(f, "rivaas.dev/router.(*Router).Warmup(") {
-				return "W"
-			}
-			return ""
+		if !isSync {
+			onlySyncSoFar = false
 		}
+	}
+	return
+}
+
+// whichOnce says which Once a blocked goroutine waits for ("" = it is not blocked in a Once).
+func whichOnce(g ginfo) string {
+	w, wt := onceFrames(g)
+	if len(w) > 0 && wt[0] {
+		return w[0]
 	}
 	return ""
 }
@@ -172,12 +191,9 @@ func (s *schedT) held(dump map[int64]ginfo, once string) bool {
 		if a.state != "P" && a.state != "B" {
 			continue
 		}
-		g := dump[a.gid]
-		for _, f := range g.funcs {
-			if once == "F" && strings.HasPrefix(f, "rivaas.dev/router.(*Router).Freeze.func1(") {
-				return true
-			}
-			if once == "W" && strings.HasPrefix(f, "rivaas.dev/router.(*Router).doWarmup(") {
+		w, wt := onceFrames(dump[a.gid])
+		for i := range w {
+			if w[i] == once && !wt[i] {
 				return true
 			}
 		}
@@ -562,8 +578,15 @@ func runPhases(id string, k caseT, st *hx.Stats) string {
 		}
 		st.Count("sched_len_" + strconv.Itoa(min(len(sched)/8*8, 48)))
 	}
+	if s.deadlock {
+		sawDeadlock = true
+	}
 	return l.String() + hx.Comment(k)
 }
+
+// sawDeadlock: a goroutine stayed blocked for the whole watchdog period. The goroutines of that case are
+// abandoned inside the router; the run stops after reporting the case (every further case would wait again).
+var sawDeadlock bool
 
 // ---------------------------------------------------------------- generators (phases)
 
@@ -875,6 +898,9 @@ func main() {
 		st := hx.NewStats()
 		n := 0
 		emit := func(k caseT) {
+			if sawDeadlock {
+				return
+			}
 			fmt.Fprintln(w, runPhases(fmt.Sprintf("c12-%d-%d", a.Seed, n), k, st))
 			n++
 		}
